@@ -77,7 +77,7 @@ func genC06(t *tape.Tape, tier string) any {
 			r.Kind = "http"
 			r.Method = []string{"GET", "POST", "HEAD"}[t.Pick(5, 2, 1)]
 			r.Form = []string{"abs", "origin"}[t.Pick(4, 2)]
-			host := []string{r.Token + ".ok.example", "shared.ok.example", "keep.other.example", r.Token + ".other.example"}[t.Pick(4, 3, 2, 2)]
+			host := []string{r.Token + ".ok.example", "shared.ok.example", "keep.other.example", r.Token + ".other.example", "[fd00::66]"}[t.Pick(4, 3, 2, 2, 2)]
 			port := []string{"", ":80", ":8080", ":9000"}[t.Pick(4, 2, 3, 1)]
 			if pc.MITMHost != "" {
 				r.Form = "origin"
@@ -110,7 +110,7 @@ func genC06(t *tape.Tape, tier string) any {
 				r.Authz = []string{"Bearer client-tok-" + r.Token, "Basic " + b64("client:"+sec("cli")), "Digest username=\"x\", response=\"" + r.Token + "\""}[t.Intn(3)]
 			}
 			pc.Reqs = append(pc.Reqs, r)
-			if mode == 2 {
+			if mode == 2 && !strings.HasPrefix(host, "[") {
 				kw := map[string]string{"http": "PROXY", "https": "HTTPS", "socks5": "SOCKS5"}[kind]
 				if t.Chance(1, 5) {
 					pacLines = append(pacLines, fmt.Sprintf("  if (host == %q) return \"DIRECT\";", host))
@@ -177,7 +177,7 @@ func parseCreds(list []string) []credEntry {
 		up, hp := s[:i], s[i+1:]
 		j := strings.Index(up, ":")
 		k := strings.LastIndex(hp, ":")
-		out = append(out, credEntry{up[:j], up[j+1:], hp[:k], hp[k+1:]})
+		out = append(out, credEntry{up[:j], up[j+1:], strings.Trim(hp[:k], "[]"), hp[k+1:]}) // (an IPv6 literal is written in brackets)
 	}
 	return out
 }
